@@ -432,4 +432,18 @@ theorem banned_run_noBan {c : Cfg} (hc : c.banAddr = false) : ∀ (evs : List Ev
   | nil => intro s; rfl
   | cons e es ih => intro s; simp only [run, List.foldl_cons] at ih ⊢; rw [ih, banned_step_noBan hc]
 
+theorem lost_eq_zero (s : St) : lost s = 0 := by
+  simp [lost, slotLostOnBan]
+
+theorem conns_spawn (s : St) : (spawn s).conns = s.conns := rfl
+
+theorem conns_failedConn (c : Cfg) (s : St) (addr : Option Nat) : (failedConn c s addr).conns = s.conns := by
+  unfold failedConn
+  split
+  · simp only []
+    split
+    · unfold afterBanAddress; split <;> rfl
+    · rfl
+  · rfl
+
 end BHS.Proofs.ConnMgr
